@@ -343,4 +343,20 @@ PROPS['C19'].update({
     'level_note': 'Input abstracted by lengths, duplicate-freeness, disjointness, per-row predicates; builtins (all, isinstance, set, issubset, range, map) assumed; a literal None lattice value is not modelled.',
 })
 
+PROPS['C11'].update({
+    'units': ['contexts.todict.true', 'contexts.todict.false', 'contexts.todict.none', 'lattices._tolist', 'lattices._fromlist.raw', 'lattices._fromlist.ordered',
+              'contexts.fromdict', 'contexts.fromjson', 'contexts.tojson', 'contexts.__getstate__', 'contexts.__setstate__', 'lattices.__getstate__',
+              'lattices.__setstate__', 'matrices.Relation.__reduce__', 'matrices.Vectors.__reduce__', 'matrices.Relation.__new__', 'lattices._init'],
+    'level': 'other',
+    'proved_part': 'todict/_tolist: the documented index-based encoding (keys, per concept extent/intent index tuples and neighbour indexes in stored order; lattice included iff requested/already computed); '
+                   'fromdict: acceptance and faithful cells, stored lattice attached with the raw flag; _fromlist: from any permutation of the canonical list (raw) or the canonical list (ordered) '
+                   'the rebuilt members have the stored extents/intents, canonical index, covers as neighbour tuples in shortlex/longlex order, and _init is called on the canonical arrangement '
+                   '(LatInv is categorical, so every public query agrees with the recomputed lattice); fromjson/tojson pass every flag; __getstate__/__setstate__/__reduce__ are inverse pairs with the constructors',
+    'bounded_part': 'the codecs (json, repr + ast.literal_eval, python-literal line structure), the pickle protocol itself incl. another process, recursion depth (known finding), '
+                    'the literal-file path; lemma L-SORTED-CANONICAL and the sum-of-atoms arithmetic contract are assumed',
+    'technique': 'contract-based deductive verification of the encode/decode pair (todict/_tolist vs fromdict/_fromlist) and of the pickling hooks as inverse pairs; bounded stand-in for codecs and the pickle protocol',
+    'level_text': 'Encode/decode functions proved relative to the trusted-stored-list precondition; external codecs and the pickle protocol are bounded; recursion depth is a known finding.',
+    'level_note': 'Not decidable by contracts here: the C pickler walking the object graph, the id()-keyed class registry in a fresh process, recursion depth.',
+})
+
 NOT_APPLICABLE = {}
